@@ -4,6 +4,7 @@ listen/accept paths) joined by simulated TCP, driven by scripted D-Bus users.
 A *plan* (JSON-able dict) fixes configuration, operations and faults; the
 *schedule chooser* decides interleaving, chunking, latencies and short writes.
 '''
+import os
 import random
 
 from dsim import boot
@@ -119,14 +120,19 @@ def gen_plan(ch, prof):
             else:
                 tval = start + SEC * ch.pick(side + '.t', 5) + ch.pick(side + '.tu', 1000)
             ops.append(dict(t=tval, node=side, op='send', len=size, tag=tag))
+            if ch.coin(side + '.file', 1, 6):
+                # through send_bundle_file: the agent reads the bundle from the file system as it goes
+                ops[-1]['via'] = 'file'
             tag += 1
     npops = ch.pick('npop', 4)
     for _ in range(npops):
         ops.append(dict(t=1000 * ch.pick('pop.t', 6000), node=ch.choice('pop.n', ('A', 'P')), op='pop'))
+        if ch.coin('pop.file', 1, 4):
+            ops[-1]['via'] = 'file'
     nq = ch.pick('nquery', prof.get('max_queries', 3) + 1)
     for _ in range(nq):
         ops.append(dict(t=1000 * ch.pick('q.t', 6000), node=ch.choice('q.n', ('A', 'P')),
-                        op=ch.choice('q.op', ('idle', 'txq', 'rxq', 'params', 'state', 'popdup', 'idle', 'txq'))))
+                        op=ch.choice('q.op', ('idle', 'txq', 'rxq', 'params', 'state', 'popdup', 'idle', 'txq', 'conns', 'listen'))))
     if prof.get('terminate'):
         nterm = 1 + ch.weighted('nterm', (5, 2, 1))
         for _ in range(nterm):
@@ -181,6 +187,30 @@ def _place(ch, label, item, prof):
     else:
         # very early: around contact / session negotiation
         item['t'] = ch.pick(label + '.early', 1500)
+
+
+_WORKDIR = None
+
+
+def _cleanup_workdir():
+    ''' Remove the scratch directory of the run that just ended (worker processes leave through os._exit). '''
+    global _WORKDIR
+    if _WORKDIR is not None:
+        import shutil
+        os.chdir(boot.VERIF)
+        shutil.rmtree(_WORKDIR, True)
+        _WORKDIR = None
+
+
+def _workdir():
+    ''' Scratch directory for the file-based D-Bus methods. The process changes into it, so that the paths that go
+    over the bus (and into the history digest) are plain relative names. '''
+    global _WORKDIR
+    if _WORKDIR is None or not os.path.isdir(_WORKDIR):
+        import tempfile
+        _WORKDIR = tempfile.mkdtemp(prefix='verif_files_')
+        os.chdir(_WORKDIR)
+    return _WORKDIR
 
 
 class Harness:
@@ -276,19 +306,44 @@ class Harness:
         if kind in ('shutdown', 'stop'):
             self.call(side, AGENT_PATH, kind)
             return
+        if kind == 'conns':
+            self.call(side, AGENT_PATH, 'get_connections')
+            return
+        if kind == 'listen':
+            # a second listening socket, taken down again
+            self.listen_port = getattr(self, 'listen_port', 4600) + 1
+            self.call(side, AGENT_PATH, 'listen', ADDR[side], self.listen_port)
+            self.call(side, AGENT_PATH, 'listen_stop', ADDR[side], self.listen_port)
+            return
         path = self.contact[side]
         if path is None:
             self.deferred[side].append(op)
             return
         if kind == 'send':
             body = body_for(op['tag'], op['len'])
-            ret = self.call(side, path, 'send_bundle_data', body)
+            if op.get('via') == 'file':
+                name = '%s_tx_%d.bin' % (side, op['tag'])
+                with open(os.path.join(_workdir(), name), 'wb') as outfile:
+                    outfile.write(body)
+                ret = self.call(side, path, 'send_bundle_file', name)
+                wld.count('user.send_file')
+            else:
+                ret = self.call(side, path, 'send_bundle_data', body)
             if isinstance(ret, str):
                 self.queued[side].append((wld.seq, str(ret), op['tag'], body))
         elif kind == 'pop':
             ret = self.call(side, path, 'recv_bundle_get_queue')
             if isinstance(ret, list):
                 for bid in ret:
+                    if op.get('via') == 'file':
+                        name = '%s_rx_%s_%d.bin' % (side, bid, wld.seq)
+                        _workdir()
+                        res = self.call(side, path, 'recv_bundle_pop_file', bid, name)
+                        wld.count('user.pop_file')
+                        if not (isinstance(res, tuple) and res and res[0] == 'error'):
+                            with open(os.path.join(_workdir(), name), 'rb') as infile:
+                                self.popped[side].append((wld.seq, str(bid), infile.read()))
+                        continue
                     data = self.call(side, path, 'recv_bundle_pop_data', bid)
                     if not (isinstance(data, tuple) and data and data[0] == 'error'):
                         self.popped[side].append((wld.seq, str(bid), bytes(data)))
@@ -416,4 +471,7 @@ class Harness:
 
 
 def run_plan(plan, sched, verbose=False):
-    return Harness(plan, sched, verbose).run()
+    try:
+        return Harness(plan, sched, verbose).run()
+    finally:
+        _cleanup_workdir()
